@@ -54,7 +54,11 @@ class DeterministicChannelKeyManager:
         next_private_key = self.private_key.child(self.last_known)
         public_key = next_private_key.public_key
         public_key_bytes = public_key.pubkey_bytes
-        if txo.claim.channel.public_key_bytes == public_key_bytes:
+        try:
+            channel_public_key_bytes = txo.claim.channel.public_key_bytes
+        except (ValueError, KeyError, TypeError):  # anybody's channel may carry a key that is neither 33 raw bytes nor DER of a secp256k1 key
+            return
+        if channel_public_key_bytes == public_key_bytes:
             self.cache[public_key.address] = next_private_key
             self.last_known += 1
 
